@@ -36,11 +36,12 @@ if [ $applies = yes ]; then
     # network namespace (multicast does not work there: those tests are run on the host afterwards, with retries)
     others=$(echo "$pkgs" | sed 's# \./\. # #; s#^\./\. ##')
     go test -c -o "$d/root.test" . > "$d/tests.log" 2>&1
-    if unshare -n sh -c "ip link set lo up; cd $d/repo && timeout 1500 $d/root.test -test.count=1 -test.skip ulticast -test.timeout 20m" >> "$d/tests.log" 2>&1 && { [ -z "$(echo $others)" ] || go test -count=1 $others >> "$d/tests.log" 2>&1; }; then
-      tests="pass (root suite in a private network namespace, multicast tests skipped there)"
-      for try in 1 2 3; do
-        if timeout 900 "$d/root.test" -test.count=1 -test.run 'ulticast' -test.timeout 10m > "$d/mc.log" 2>&1; then tests="pass (root suite in a private network namespace; multicast tests on the host)"; break; fi
-      done
+    ok=no
+    for try in 1 2; do
+      if unshare -n sh -c ". /verif/tools/netns.sh; cd $d/repo && timeout 1500 $d/root.test -test.count=1 -test.timeout 20m" >> "$d/tests.log" 2>&1; then ok=yes; break; fi
+    done
+    if [ $ok = yes ] && { [ -z "$(echo $others)" ] || go test -count=1 $others >> "$d/tests.log" 2>&1; }; then
+      tests="pass (whole root suite, unedited, in a private network namespace with lo + a multicast-capable veth, tools/netns.sh)"
     else tests=FAIL; grep -E "^(--- FAIL|FAIL|panic)" "$d/tests.log" | head -5; fi
   elif timeout 1500 go test -count=1 $pkgs > "$d/tests.log" 2>&1; then tests=pass; else
     # the machine is busy: one retry for tests that use real sockets
